@@ -103,6 +103,9 @@ def run_case(case):
         return tuple(values), {}
 
     def add_agent_(a_, values):
+        if style == "alias" and all(type(v) in (int, float) and v == 0 for v in values):
+            labels.add("deprecated-alias")
+            return env.addAgent(a_)         # the deprecated spelling (takes the agent only): placed in the origin like add_agent(a)
         args_, kw_ = conv("add", values)
         return env.add_agent(a_, *args_, **kw_)
 
@@ -250,7 +253,11 @@ def run_case(case):
         elif kind_op == "remove":
             if i not in pos:
                 continue
-            env.remove_agent(f"a{i}")
+            if style == "alias":
+                env.removeAgent(f"a{i}")     # the deprecated spelling
+                labels.add("deprecated-alias")
+            else:
+                env.remove_agent(f"a{i}")
             del pos[i]
             labels.add("removed")
         else:
@@ -330,7 +337,7 @@ def strategy(tier):
                 ops.append({"op": "move_to", "a": draw(a), "pos": [coord(0), coord(1), coord(2)]})
             else:
                 ops.append({"op": "remove", "a": draw(a)})
-        return {"kind": kind, "ext": ext, "wrap": wrap, "num": "exact" if exact else "float", "ops": ops, "decoy": draw(st.integers(0, 3)) == 0, "np": draw(st.integers(0, 4)) == 0, "call": draw(st.sampled_from(["pos", "pos", "kw", "short"]))}
+        return {"kind": kind, "ext": ext, "wrap": wrap, "num": "exact" if exact else "float", "ops": ops, "decoy": draw(st.integers(0, 3)) == 0, "np": draw(st.integers(0, 4)) == 0, "call": draw(st.sampled_from(["pos", "pos", "kw", "short", "alias"]))}
     return with_done(case())
 
 
